@@ -321,6 +321,6 @@ def run_case(case):
 def gen_cases(tier, seed):
     q = tier == "quick"
     cases = [{"kind": "prog", "idx": i, "seed": seed, "x64": bool(i % 3 == 0), "k": 5 if q else 10, "cost": 3}
-             for i in range(150 if q else 3000)]
-    cases += [{"kind": "distreg", "idx": i, "seed": seed, "k": 3 if q else 6, "cost": 4} for i in range(24 if q else 400)]
+             for i in range(150 if q else 5000)]
+    cases += [{"kind": "distreg", "idx": i, "seed": seed, "k": 3 if q else 6, "cost": 4} for i in range(24 if q else 800)]
     return cases
